@@ -338,8 +338,9 @@ type scen struct {
 	// faults: the store may fail. Then the object is created and the pre-attaches are made by the
 	// first managed thread (a sequential prologue, so that the creation's and the sequential attaches'
 	// storage calls can fail too) instead of by Setup, and a failed operation is retried once.
-	faults bool
-	ambig  bool // Delete / writer Close may also fail after taking effect
+	faults  bool
+	ambig   bool // Delete / writer Close may also fail after taking effect
+	noretry bool // a failed operation is not retried
 }
 
 const objFileNum = base.DiskFileNum(1)
@@ -539,7 +540,7 @@ func (s *h) body(i int, steps []step) func() {
 			if f() {
 				return true
 			}
-			if !s.sc.faults || s.core.injBy[i] == before {
+			if !s.sc.faults || s.sc.noretry || s.core.injBy[i] == before {
 				return false
 			}
 			return f()
@@ -1023,21 +1024,20 @@ func plans() []plan {
 	f := func(name string, nprov int, pre []int, th [][]step, q, t int, w float64) plan {
 		return plan{sc: scen{name: name, nprov: nprov, pre: pre, threads: th}, quick: q, thorough: t, weight: w, quickTier: true, thorTier: true}
 	}
-	// Fault scenarios. "<shape>-fault": quick tier, env failures without effect per execution;
-	// "<shape>-faultx": thorough tier, env failures per execution, Delete and writer Close may also
-	// fail after taking effect. The two variants have different names because the set of answers of a
-	// Choose differs (a replay finds its variant by name, whatever the tier).
-	gf := func(name string, nprov int, pre []int, th [][]step, env int, w float64) []plan {
-		return []plan{
-			{sc: scen{name: name + "-fault", nprov: nprov, pre: pre, threads: th, gated: true, faults: true}, qenv: 1, tenv: 1, weight: w, quickTier: w > 0},
-			{sc: scen{name: name + "-faultx", nprov: nprov, pre: pre, threads: th, gated: true, faults: true, ambig: true}, qenv: env, tenv: env, weight: 3 * w * float64(env*env), thorTier: true},
-		}
+	// Fault scenarios (storage-level mode with a failing store: all interleavings x failures at every
+	// position). The variants have different names because the set of answers of a Choose and the
+	// retry policy differ (a replay finds its variant by name, whatever the tier):
+	//   <shape>-fault    failures without effect, a failed operation is retried once
+	//   <shape>-faultn   failures without effect, no retries
+	//   <shape>-faultx   Delete and writer Close may also fail after taking effect; retries
+	//   <shape>-faultxn  the same without retries
+	// qenv/tenv: failures per execution in the quick/thorough tier; 0: the variant does not run there.
+	gf := func(name string, nprov int, pre []int, th [][]step, ambig, noretry bool, qenv, tenv int, w float64) plan {
+		return plan{sc: scen{name: name, nprov: nprov, pre: pre, threads: th, gated: true, faults: true, ambig: ambig, noretry: noretry},
+			qenv: qenv, tenv: tenv, weight: w, quickTier: qenv > 0, thorTier: tenv > 0}
 	}
-	ff := func(name string, nprov int, pre []int, th [][]step, q, t int, w float64) []plan {
-		return []plan{
-			{sc: scen{name: name + "-full-fault", nprov: nprov, pre: pre, threads: th, faults: true}, quick: q, thorough: q, qenv: 1, tenv: 1, weight: w, quickTier: true},
-			{sc: scen{name: name + "-full-faultx", nprov: nprov, pre: pre, threads: th, faults: true, ambig: true}, quick: t, thorough: t, qenv: 1, tenv: 1, weight: 3 * w, thorTier: true},
-		}
+	ff := func(name string, nprov int, pre []int, th [][]step, ambig bool, q, t int, quick bool, w float64) plan {
+		return plan{sc: scen{name: name, nprov: nprov, pre: pre, threads: th, faults: true, ambig: ambig}, quick: q, thorough: t, qenv: 1, tenv: 1, weight: w, quickTier: quick, thorTier: !quick}
 	}
 	p2 := []int{1}
 	ps := []plan{
@@ -1051,22 +1051,31 @@ func plans() []plan {
 		g("S6-all", 3, p2, s6, 3, false),
 		g("S5r-all", 3, nil, s5r, 14, false),
 	}
-	// storage-level mode with a failing store: all interleavings x a failure at every position
-	ps = append(ps, gf("S0", 2, nil, s0, 2, 0.3)...)
-	ps = append(ps, gf("S1", 2, nil, s1, 2, 0.5)...)
-	ps = append(ps, gf("S4", 2, nil, s4, 2, 1)...)
-	ps = append(ps, gf("S3", 3, p2, s3, 1, 4)...)
-	ps = append(ps, gf("S7", 3, p2, s7, 1, 4)...)
-	ps = append(ps, gf("S2", 3, nil, s2, 1, 0)...) // thorough only
+	// quick tier: two failures in the two-provider shapes, one in the three-provider shapes
+	ps = append(ps,
+		gf("S0-fault", 2, nil, s0, false, false, 2, 0, 2),
+		gf("S1-fault", 2, nil, s1, false, false, 2, 0, 4),
+		gf("S4-fault", 2, nil, s4, false, false, 2, 0, 6),
+		gf("S3-faultn", 3, p2, s3, false, true, 1, 0, 5),
+		gf("S7-faultn", 3, p2, s7, false, true, 1, 0, 5),
+		// thorough tier
+		gf("S0-faultx", 2, nil, s0, true, false, 0, 2, 4),
+		gf("S1-faultx", 2, nil, s1, true, false, 0, 2, 8),
+		gf("S4-faultx", 2, nil, s4, true, false, 0, 2, 12),
+		gf("S3-faultx", 3, p2, s3, true, false, 0, 1, 30),
+		gf("S7-faultx", 3, p2, s7, true, false, 0, 1, 30),
+		gf("S2-faultxn", 3, nil, s2, true, true, 0, 1, 30))
 	// full mode: every hooked mutex/atomic operation is a scheduling point as well
 	ps = append(ps,
 		f("S1-full", 2, nil, s1, 2, 4, 0.5),
 		f("S4-full", 2, nil, s4, 2, 4, 0.5),
 		f("S3-full", 3, p2, s3, 1, 3, 2),
 		f("S2-full", 3, nil, s2, 1, 2, 1),
-		f("S5-full", 3, nil, s5, 1, 2, 1))
-	ps = append(ps, ff("S1", 2, nil, s1, 1, 2, 1)...)
-	ps = append(ps, ff("S4", 2, nil, s4, 1, 2, 1)...)
+		f("S5-full", 3, nil, s5, 1, 2, 1),
+		ff("S1-full-fault", 2, nil, s1, false, 1, 1, true, 0.5),
+		ff("S4-full-fault", 2, nil, s4, false, 1, 1, true, 0.5),
+		ff("S1-full-faultx", 2, nil, s1, true, 2, 2, false, 2),
+		ff("S4-full-faultx", 2, nil, s4, true, 2, 2, false, 2))
 	return ps
 }
 
